@@ -9,6 +9,7 @@ mod kutil;
 mod lifecycle;
 mod opsmix;
 mod process;
+mod quic;
 mod smoke;
 mod streams;
 mod timers;
@@ -38,6 +39,7 @@ fn main() {
     scenarios.extend(lifecycle::scenarios());
     scenarios.extend(opsmix::scenarios());
     scenarios.extend(process::scenarios());
+    scenarios.extend(quic::scenarios());
     scenarios.extend(streams::scenarios());
     scenarios.extend(timers::scenarios());
     scenarios.extend(ws::scenarios());
